@@ -280,3 +280,8 @@ SUBS = [
     Sub("lookups", check_lk, strategy=lk_case, quick=6000, thorough=80000),
 ]
 KNOWN = {}
+
+# second use of one view object after its sources were edited (shared sub-check, see pv/reuse.py)
+from pv import reuse  # noqa: E402
+SUBS.append(reuse.sub(ID))
+RULE += reuse.RULE
